@@ -573,7 +573,9 @@ def c16_run(rep, rng, tier, term):
 SEQ_CODES = ['0', '', '1', '2', '22', '3', '23', '4', '21', '24', '31', '34', '39', '41', '49', '38;5;214', '38;2;1;2;3', '48;5;21', '58;5;9', '59',
              '99', '38;5', '38', '38;5;256', '10', '11', '53', '55', '1;31', '0;1', '31;0', '1;38;5;214;4', '2;', ';2', '1;;31', '38;5;1;48;5;2', '5', '25', '7', '27', '51', '54',
              '90', '107', '38;2;1;2', '108', '300']
-NON_SGR = ['\x1b[2J', '\x1b[1;2H', '\x1b[', '\x1b[1', '\x1b', '\x1b[?25l', '\x1b]0;t\x07', '\x1b[1 m']
+NON_SGR = ['\x1b[2J', '\x1b[1;2H', '\x1b[', '\x1b[1', '\x1b', '\x1b[?25l', '\x1b]0;t\x07', '\x1b[1 m',
+           # final bytes at both ends of the range 0x40-0x7E, bracketed paste / function keys
+           '\x1b[3~', '\x1b[200~', '\x1b[201~', '\x1b[1@', '\x1b[@', '\x1b[~', '\x1b[5}', '\x1b[2`', '\x1b[15~', '\x1b[1;5A']
 
 
 def ansi_input(rng):
@@ -585,7 +587,7 @@ def ansi_input(rng):
         elif k < 0.9:
             parts.append('\x1b[' + ';'.join(rng.choice(SEQ_CODES) for _ in range(rng.choice([1, 1, 1, 2, 3]))) + 'm')
         elif k < 0.96:
-            parts.append(rng.choice(NON_SGR))
+            parts.append(rng.choice(NON_SGR) + (rng.choice(['', '\x1b[31m', '\x1b[1m', ' 12 m', 'x']) if rng.random() < 0.5 else ''))
         else:
             parts.append('\x1b[' + rng.choice([' 1', '1 ', '+1', 'x', '1;x']) + 'm')
     return ''.join(parts)
@@ -659,7 +661,7 @@ def c02_run(rep, rng, tier, term):
     from . import corr
     cases = []
     for k, w in enumerate(inputs[:1500 if tier == 'quick' else 40000]):
-        if '\x1b' in SGR_RE.sub('', w) or not w.isascii():
+        if not w.isascii():
             continue
         if re.search('\x1b\\[[^\x40-\x7e]*[^0-9;\x40-\x7e][^\x40-\x7e]*m', w):
             continue      # non-numeric parameter bytes: Python int() leniency is outside the model
